@@ -44,6 +44,26 @@
 (* hops on a loop) is either a transport error or that 3xx status - never  *)
 (* a success (RefusedIsNotOK; which of the two is left open: it depends on *)
 (* whether the handed-back, already closed 3xx body can still be read).    *)
+(*                                                                         *)
+(* The retained-results layer (process history).  What a submission        *)
+(* RETURNED is a value, not a view: the error (status AND body), the       *)
+(* parsed response / SCT and the raw body the caller was handed stay what  *)
+(* they were at the instant of return, whatever happens afterwards in the  *)
+(* process - later submissions of the same caller on the same client,      *)
+(* submissions of other callers sharing the client (concurrent or not),    *)
+(* submissions through other clients of the process, retries of any of     *)
+(* them.  Every exchange the server answers has an identity `id` (its      *)
+(* body is distinguishable from the body of every other exchange of the    *)
+(* process: `sent`); a returned result is the record [c, no, k, id]: the   *)
+(* no-th submission of caller c ended with kind k carrying the response    *)
+(* id (0 for the context's error).  `retained` holds every result handed   *)
+(* out so far; it only grows (ResultsAreValues), has one result per        *)
+(* submission (OneResultPerCall), and each result carries the response of  *)
+(* its OWN submission, of the class that ends it (RetainedOwn).  A caller  *)
+(* may look at the results it kept at any time: Inspect(seen) - what it    *)
+(* sees is what was returned.  The process history outlives clients (a new *)
+(* client in the same process does not change what earlier clients         *)
+(* returned).                                                              *)
 (***************************************************************************)
 EXTENDS Integers, Sequences, FiniteSets, TLC
 
@@ -53,7 +73,8 @@ CONSTANTS
   Base,      \* time units per second
   J,         \* jitter values are 0..J-1 time units (250 ms in the code)
   MaxLen,    \* the per-caller request counter n saturates here (model checking only)
-  Record     \* BOOLEAN: keep the behaviour in hist
+  Record,    \* BOOLEAN: keep the behaviour in hist
+  Retain     \* BOOLEAN: keep the process history of exchanges and returned results (sent, retained)
 
 NoEnd == -1          \* ctxEnd of a context that never ends
 
@@ -132,13 +153,25 @@ VARIABLES
   lastPost,   \* per caller: instant of its last request (= the instant its current wait started), -1 before the first
   minNext,    \* per caller: lastPost + what the server asked for in reply to it
   askUntil,   \* shared: latest instant any response of the server asked anybody to wait for
-  hist        \* the behaviour (only when Record)
+  hist,       \* the behaviour (only when Record)
+  \* the retained-results layer: history of the PROCESS (it outlives a client); only when Retain
+  callNo,     \* per caller: which of its submissions this is (a caller's submissions follow each other)
+  lastId,     \* per caller: identity of the response being decided on (the last one its submission received)
+  sent,       \* the exchanges answered so far: [id, c, no, cls] - identity, whose submission, class seen
+  retained    \* the results handed to callers so far, which they keep: [c, no, k, id]
 
 shared == <<mult, notBefore>>
+hvars == <<callNo, lastId, sent, retained>>
 vars == <<hc, now, mult, notBefore, pc, ctxEnd, ctxDone, until, result, lastResp, n,
-          lastPost, minNext, askUntil, hist>>
+          lastPost, minNext, askUntil, hist, callNo, lastId, sent, retained>>
 
 Log(e) == hist' = IF Record THEN Append(hist, e) ELSE hist
+
+\* the result of c's current submission as the caller is handed it (and keeps it): kind k carrying response id
+Kept(c, k) == [c |-> c, no |-> callNo[c], k |-> k, id |-> IF k = "ctx" THEN 0 ELSE lastId[c]]
+\* the submission of c returns kind k: the result is handed out
+Hand(c, k) == /\ retained' = IF Retain THEN retained \cup {Kept(c, k)} ELSE retained
+              /\ UNCHANGED <<callNo, lastId, sent>>
 
 (* ---- actions: one per critical section of the code ---- *)
 
@@ -148,9 +181,14 @@ Clear(c) == /\ until' = [until EXCEPT ![c] = 0]
             /\ minNext' = [minNext EXCEPT ![c] = 0]
 
 \* PostAndParse: one request/response exchange (the context is still alive); the wire response wr is seen as class k
-Post(c, wr, k) ==
+\* id: the identity of this exchange (its body differs from the body of every other exchange of the process)
+Post(c, wr, k, id) ==
   /\ pc[c] = "posting" /\ ~ctxDone[c]
   /\ k \in Seen(hc, wr.w, wr.sp)
+  /\ \A s \in sent : s.id # id
+  /\ lastId' = IF Retain THEN [lastId EXCEPT ![c] = id] ELSE lastId
+  /\ sent' = IF Retain THEN sent \cup {[id |-> id, c |-> c, no |-> callNo[c], cls |-> k]} ELSE sent
+  /\ UNCHANGED <<callNo, retained>>
   /\ LET r == Resp(k, wr) IN
      /\ pc' = [pc EXCEPT ![c] = "decided"]
      /\ lastResp' = [lastResp EXCEPT ![c] = r]
@@ -158,7 +196,7 @@ Post(c, wr, k) ==
      /\ minNext' = [minNext EXCEPT ![c] = IF Asks(r) THEN now + r.ov ELSE now]
      /\ n' = [n EXCEPT ![c] = Min(n[c] + 1, MaxLen)]
      /\ Log([a |-> "Post", c |-> c, t |-> now, cls |-> r.cls, w |-> r.w, sp |-> r.sp, rak |-> r.rak, ov |-> r.ov,
-             mult |-> mult, nb |-> notBefore])
+             mult |-> mult, nb |-> notBefore, id |-> id, no |-> callNo[c]])
   /\ UNCHANGED <<hc, now, mult, notBefore, ctxEnd, ctxDone, until, result, askUntil>>
 
 \* PostAndParse with a context that has ended: the context's error, no request
@@ -166,8 +204,9 @@ PostCtx(c) ==
   /\ pc[c] = "posting" /\ ctxDone[c]
   /\ pc' = [pc EXCEPT ![c] = "done"]
   /\ result' = [result EXCEPT ![c] = Res("ctx")]
-  /\ Log([a |-> "Ret", c |-> c, t |-> now, res |-> "ctx"])
+  /\ Log([a |-> "Ret", c |-> c, t |-> now, res |-> "ctx", id |-> 0, no |-> callNo[c]])
   /\ Clear(c)
+  /\ Hand(c, "ctx")
   /\ UNCHANGED <<hc, now, mult, notBefore, ctxEnd, ctxDone, lastResp, n, askUntil>>
 
 \* the status switch of PostAndParseWithRetry, including backoff.set under its mutex
@@ -178,13 +217,16 @@ Decide(c) ==
      /\ IF r.cls \in Terminal THEN
           /\ pc' = [pc EXCEPT ![c] = "done"]
           /\ result' = [result EXCEPT ![c] = Res(IF r.cls = "ok" THEN "ok" ELSE "status")]
-          /\ Log([a |-> "Ret", c |-> c, t |-> now, res |-> IF r.cls = "ok" THEN "ok" ELSE "status"])
+          /\ Log([a |-> "Ret", c |-> c, t |-> now, res |-> IF r.cls = "ok" THEN "ok" ELSE "status",
+                  id |-> lastId[c], no |-> callNo[c]])
           /\ Clear(c)
+          /\ Hand(c, IF r.cls = "ok" THEN "ok" ELSE "status")
           /\ UNCHANGED <<mult, notBefore, askUntil>>
         ELSE IF r.cls = "s408" THEN      \* retried without touching the back-off
           /\ pc' = [pc EXCEPT ![c] = "setdone"]
           /\ Log([a |-> "Set", c |-> c, t |-> now, mult |-> mult, nb |-> notBefore])
           /\ UNCHANGED <<mult, notBefore, askUntil, result, until, lastPost, minNext>>
+          /\ UNCHANGED hvars
         ELSE
           LET s == SetBackoff(mult, notBefore, now, Asks(r), r.ov) IN
           /\ pc' = [pc EXCEPT ![c] = "setdone"]
@@ -193,6 +235,7 @@ Decide(c) ==
           /\ askUntil' = IF Asks(r) THEN Max(askUntil, now + r.ov) ELSE askUntil
           /\ Log([a |-> "Set", c |-> c, t |-> now, mult |-> s.mult, nb |-> s.nb])
           /\ UNCHANGED <<result, until, lastPost, minNext>>
+          /\ UNCHANGED hvars
   /\ UNCHANGED <<hc, now, ctxEnd, ctxDone, n>>
 
 \* waitForBackoff: reads the shared not-before instant, adds this wait's jitter, arms the timer
@@ -202,12 +245,14 @@ StartWait(c, j) ==
   /\ until' = [until EXCEPT ![c] = notBefore + j]
   /\ Log([a |-> "Wait", c |-> c, t |-> now, until |-> notBefore + j, j |-> j])
   /\ UNCHANGED <<hc, now, mult, notBefore, ctxEnd, ctxDone, result, lastResp, n, lastPost, minNext, askUntil>>
+  /\ UNCHANGED hvars
 
 TimerFires(c) ==
   /\ pc[c] = "waiting" /\ now >= until[c]
   /\ pc' = [pc EXCEPT ![c] = "posting"]
   /\ until' = [until EXCEPT ![c] = 0]
   /\ UNCHANGED <<hc, now, mult, notBefore, ctxEnd, ctxDone, result, lastResp, n, lastPost, minNext, askUntil, hist>>
+  /\ UNCHANGED hvars
 
 \* the caller's context ends (deadline reached or cancelled at that instant)
 CtxEnds(c) ==
@@ -216,14 +261,16 @@ CtxEnds(c) ==
   /\ ctxDone' = [ctxDone EXCEPT ![c] = TRUE]
   /\ Log([a |-> "Ctx", c |-> c, t |-> now])
   /\ UNCHANGED <<hc, now, mult, notBefore, pc, ctxEnd, until, result, lastResp, n, lastPost, minNext, askUntil>>
+  /\ UNCHANGED hvars
 
 \* the select in waitForBackoff takes the context branch
 CtxReturn(c) ==
   /\ pc[c] = "waiting" /\ ctxDone[c]
   /\ pc' = [pc EXCEPT ![c] = "done"]
   /\ result' = [result EXCEPT ![c] = Res("ctx")]
-  /\ Log([a |-> "Ret", c |-> c, t |-> now, res |-> "ctx"])
+  /\ Log([a |-> "Ret", c |-> c, t |-> now, res |-> "ctx", id |-> 0, no |-> callNo[c]])
   /\ Clear(c)
+  /\ Hand(c, "ctx")
   /\ UNCHANGED <<hc, now, mult, notBefore, ctxEnd, ctxDone, lastResp, n, askUntil>>
 
 (* ---- time ---- *)
@@ -240,6 +287,7 @@ Advance ==
   /\ Deadlines # {}
   /\ now' = SetMin(Deadlines)
   /\ UNCHANGED <<hc, mult, notBefore, pc, ctxEnd, ctxDone, until, result, lastResp, n, lastPost, minNext, askUntil, hist>>
+  /\ UNCHANGED hvars
 
 CallerStep(c) == \/ PostCtx(c) \/ Decide(c) \/ TimerFires(c) \/ CtxEnds(c) \/ CtxReturn(c)
                  \/ \E j \in 0..(J - 1) : StartWait(c, j)
@@ -344,9 +392,38 @@ HandedBackStep == \A c \in Callers :
                         \/ hc = "refuse" /\ pc'[c] = "setdone" /\ result'[c] = NoRes
 HandedBack == [][HandedBackStep]_vars
 
+(* ---- the retained-results layer: results are values, not views ---- *)
+\* a caller looks at results it kept (any of them, at any time): each still is what was returned
+Inspect(seen) == seen \subseteq retained
+\* every result carries the response of its own submission - the one that ended it, of the class that ends a
+\* submission that way - and the context's error carries none
+RetainedOwn == \A x \in retained :
+                 /\ x.k \in {"ok", "status", "ctx"}
+                 /\ x.k = "ctx" => x.id = 0
+                 /\ x.k # "ctx" => \E s \in sent : /\ s.id = x.id /\ s.c = x.c /\ s.no = x.no
+                                                   /\ s.cls = (IF x.k = "ok" THEN "ok" ELSE "other")
+\* the function law: one submission, one result
+OneResultPerCall == \A x, y \in retained : (x.c = y.c /\ x.no = y.no) => x = y
+\* identities identify: no two exchanges of the process share one
+IdsDistinct == Cardinality({s.id : s \in sent}) = Cardinality(sent)
+\* whatever happens later (requests, retries, returns of anybody, through any client of the process), a result that
+\* was handed out stays what it was; and a step hands out at most the result of the submission that returns in it
+ResultsAreValuesStep ==
+  /\ retained \subseteq retained'
+  /\ sent \subseteq sent'
+  /\ \A x \in retained' \ retained : /\ pc[x.c] # "done" /\ pc'[x.c] = "done" /\ x.no = callNo[x.c]
+                                     /\ x.k = result'[x.c].k
+                                     /\ x.k # "ctx" => (pc[x.c] = "decided" /\ x.id = lastId[x.c])
+                                     \* (RetainedOwn and OneResultPerCall, at the instant of the hand-out)
+                                     /\ x.k = "ctx" => x.id = 0
+                                     /\ x.k # "ctx" => [id |-> x.id, c |-> x.c, no |-> x.no,
+                                                         cls |-> IF x.k = "ok" THEN "ok" ELSE "other"] \in sent
+                                     /\ \A y \in retained : ~(y.c = x.c /\ y.no = x.no)
+ResultsAreValues == [][ResultsAreValuesStep]_vars
+
 \* every step clause at once (used by the trace specification on the steps of recorded executions)
 AllStepClauses == /\ FirstGood200Step /\ RetryOnlyOnStep /\ OthersImmediateStep /\ HonoursRetryAfterStep
                   /\ CapPlusJitterStep /\ NoDelayOn408Step /\ WaitIsBackoffPlusJitterStep /\ UntilInWindowStep
                   /\ PendingOnlyExtendedStep /\ MultMonotoneStep /\ NoPostAfterCtxStep /\ PromptCtxSafeStep
-                  /\ RedirectNotOKStep /\ SpellingStep /\ HandedBackStep
+                  /\ RedirectNotOKStep /\ SpellingStep /\ HandedBackStep /\ ResultsAreValuesStep
 =============================================================================
